@@ -7,6 +7,7 @@ import BV.C08.Lemmas
 import BV.C08.Alloc
 import BV.C08.Domain
 import BV.C08.Gates
+import BV.C08.Tolerant
 import BV.Generated.C08
 namespace BV.C08
 open BV.Codec
@@ -371,7 +372,38 @@ theorem msg_alloc_small (pver gate : Nat) (b : Bytes) :
    message_alloc_bounded (emptyFrom_alloc pver gate) (by decide) b,
    message_alloc_bounded emptyMsg_alloc (by decide) b⟩
 
-/-! ### the tolerant decoders (findings F-C08-a, F-C08-b) -/
+/-! ### the tolerant decoders (findings F-C08-a, F-C08-b)
+
+`versionDecGo` / `addrV2DecGo` are the Go decoders as they are (Model). Round trip holds for them in
+full (`*_go_roundtrip`); canonicity holds for the canonical codecs (`version_laws`, `addrV2_laws`), i.e.
+for the Go decoders restricted to inputs the canonical decoder accepts (`*_canonicity_partial`), and
+is refuted for the Go decoders on all inputs (`*_canonicity_full_fails`). -/
+
+/-- every version message in the domain decodes back to itself with the Go decoder, at every pver -/
+theorem version_go_roundtrip (pver : Nat) (v : VersionVal) (hw : (version pver).wf v) :
+    versionDecGo ((version pver).enc v) = .ok (v, []) := versionDecGo_enc pver v hw
+
+/-- every addrv2 message in the domain (kept networks) decodes back to itself with the Go decoder -/
+theorem addrV2_go_roundtrip (l : List NetAddrV2) (hw : addrV2.wf l) :
+    addrV2DecGo (addrV2.enc l) = .ok (l, []) := addrV2DecGo_enc l hw
+
+/-- canonicity for version, partial: on a payload the canonical decoder accepts in full, the Go decoder
+returns the same value and the payload is its encoding. What is missing for the full statement is
+exactly F-C08-a (payloads only the Go decoder accepts). -/
+theorem version_canonicity_partial (pver : Nat) (b : Bytes) (v : VersionVal)
+    (h : (version pver).dec b = .ok (v, [])) :
+    versionDecGo b = .ok (v, []) ∧ b = (version pver).enc v := by
+  obtain ⟨e, w⟩ := (version_lawful pver).enc_dec b v [] h
+  simp only [List.append_nil] at e
+  exact ⟨by rw [e]; exact versionDecGo_enc pver v w, e⟩
+
+/-- canonicity for addrv2, partial: same shape; the missing part is F-C08-b. -/
+theorem addrV2_canonicity_partial (b : Bytes) (l : List NetAddrV2) (h : addrV2.dec b = .ok (l, [])) :
+    addrV2DecGo b = .ok (l, []) ∧ b = addrV2.enc l := by
+  obtain ⟨e, w⟩ := addrV2_lawful.enc_dec b l [] h
+  simp only [List.append_nil] at e
+  exact ⟨by rw [e]; exact addrV2DecGo_enc l w, e⟩
+
 
 set_option synthInstance.maxSize 4000 in
 /-- F-C08-a: `MsgVersion.BtcDecode` accepts a payload that ends after `AddrYou` (46 bytes); the
